@@ -640,3 +640,97 @@ def effectify(body, rng, ctr, p=0.6):
         return out
 
     return rec(body)
+
+
+# ---------------------------------------------------------------------------------------------
+# C18: panic sites
+
+
+def panic_driver(name, K, nlo=-1, nhi=3):
+    return """func Drive_%(name)s() {
+	a, b, n := rt.NondetInt(1), rt.NondetInt(2), rt.NondetInt(3)
+	g1, g2, g3 := rt.NondetBool(4), rt.NondetBool(5), rt.NondetBool(6)
+	rt.Assume(n >= %(nlo)d && n <= %(nhi)d)
+	it := %(name)s(a, b, n, g1, g2, g3)
+	rt.Emit(rt.CREATED, 0)
+	for k := 0; k < %(K)d; k++ {
+		stop := false
+		func() {
+			defer func() {
+				if r := recover(); r != nil {
+					rt.EmitPanic(rt.PANIC, r)
+					stop = true
+				}
+			}()
+			rt.Emit(rt.ADV_BEGIN, k)
+			ok := it.MoveNext()
+			if !ok {
+				rt.Emit(rt.ADV_END, 0)
+				stop = true
+				return
+			}
+			rt.Emit(rt.ADV_END, 1)
+			rt.Emit(rt.YIELD, it.Current())
+		}()
+		if stop {
+			break
+		}
+	}
+	rt.Emit(rt.END, 0)
+}""" % {"name": name, "K": K, "nlo": nlo, "nhi": nhi}
+
+
+PANIC_SITES = [
+    lambda c: ("raw", "panic(a + %d)" % c),
+    lambda c: ("raw", "rt.Emit(41, b/(a-%d))" % (c % 7)),
+    lambda c: ("raw", "rt.Emit(42, []int{1, 2, 3}[a&3])"),
+    lambda c: ("raw", "var pm map[int]int\npm[1] = a"),
+    lambda c: ("raw", "var pp *int\nrt.Emit(43, *pp)"),
+    lambda c: ("raw", "panic(\"boom\")"),
+    lambda c: ("yieldfrom", "H3(a)"),
+]
+
+PANIC_HELPERS = """func H3(x int) (_ Iter[int]) {
+	Yield(x + 3000)
+	if x%2 == 0 {
+		panic(x + 1)
+	}
+	Yield(x + 4000)
+	return
+}
+"""
+
+
+def inject_panic(body, rng, ctr):
+    """insert one panic site at a random statement position (guarded with probability 1/2)"""
+    positions = []
+
+    def collect(lst):
+        for i in range(len(lst) + 1):
+            positions.append((lst, i))
+        for s in lst:
+            k = s[0]
+            if k == "block":
+                collect(s[1])
+            elif k == "if":
+                collect(s[2])
+                if s[3] is not None:
+                    collect(s[3])
+            elif k in ("switch", "tswitch"):
+                for _, b in s[3]:
+                    collect(b)
+                if s[4] is not None:
+                    collect(s[4])
+            elif k == "for":
+                collect(s[4])
+
+    collect(body)
+    # do not insert after a terminating jump (unreachable code is legal but pointless)
+    positions = [(l, i) for (l, i) in positions if i == 0 or l[i - 1][0] not in ("break", "continue", "return")]
+    lst, i = rng.choice(positions)
+    ctr.y += 1
+    site = rng.choice(PANIC_SITES)(ctr.y)
+    if rng.random() < 0.5:
+        site = ("if", rng.choice(["g3", "a > b", "b%2 == 0"]), [site], None)
+    lst.insert(i, site)
+    return body
